@@ -357,6 +357,9 @@ func fnHasHost(f *Fn) bool {
 }
 
 func hasPendingFault(g *MFn) bool {
+	if g.F.Err && g.F.ErrT == "ptr" {
+		return true // a concrete-typed error result: every execution is a failure
+	}
 	for i := g.Execs; i < len(g.F.Faults); i++ {
 		if g.F.Faults[i] != FaultOK {
 			if g.F.Faults[i] == FaultError && !g.F.Err {
